@@ -4,7 +4,8 @@
     receiveBuffer, then flush sendBuffer), [onClose].  Retries = 0 (no clientPacketQueue), no ack
     timeouts (the time-out purge of sendBuffer belongs to C03).
 
-    The model is the code AS REPAIRED by the two C15 fixes:
+    The model is the code AS REPAIRED by the two C15 fixes and the C02 fix of [_sendBuffers]
+    (direct send only when Connected and nothing is parked, decided under sendBufferMu):
     - [_sendBuffers] sends immediately only in state Connected (before: also in ConnectPending, so an
       emit made between the CONNECT request and its reply overtook the buffer and reached the server
       before the namespace was joined; the server closes the connection on such a packet);
@@ -85,20 +86,34 @@ Fixpoint replay (rb : list (N * option N * hkind * nat)) (sent : list N) : list 
       end
   end.
 
+Definition nilb {A} (l : list A) : bool := match l with [] => true | _ => false end.
+Definition is_ack (o : out) : bool := match o with OAck _ => true | _ => false end.
+Definition acks_of (l : list out) : list out := filter is_ack l.
+Definition noacks (l : list out) : list out := filter (fun o => negb (is_ack o)) l.
+
+(** [_sendBuffers] (as of the C02 fix): under sendBufferMu, a packet is sent directly only when the
+    socket is Connected AND nothing is parked; otherwise it is parked (non-volatile) or discarded
+    (volatile).  In the histories of this model the buffer is empty whenever the socket is connected
+    (invariant [wf] in the proofs), except inside the CONNECT reply itself. *)
 Definition step (s : st) (o : op) : list out * st :=
   match o with
   | Emit label vol withAck att =>
       let ack := if withAck then Some (ackctr s) else None in
       let ctr := if withAck then N.succ (ackctr s) else ackctr s in
       let fr := frames label ack att in
-      if is_conn (cs s) then (fr, mkSt (cs s) (sendBuf s) (recvBuf s) ctr)
+      if is_conn (cs s) && nilb (sendBuf s) then (fr, mkSt (cs s) (sendBuf s) (recvBuf s) ctr)
       else if negb vol then ([], mkSt (cs s) (sendBuf s ++ fr) (recvBuf s) ctr)
       else ([], mkSt (cs s) (sendBuf s) (recvBuf s) ctr)
   | MgrOpen =>
       if is_pending (cs s) then ([], s)
       else ([OConnect], mkSt Pending (sendBuf s) (recvBuf s) (ackctr s))
   | ConnectReply =>
-      (replay (recvBuf s) [] ++ sendBuf s, mkSt Connected [] [] (ackctr s))
+      (* state = Connected, then emitBuffered: the handlers of the parked events run; an ack they send
+         goes through _sendBuffers, i.e. directly if nothing is parked and behind the parked frames
+         otherwise; then the buffer is flushed in one piece *)
+      let r := replay (recvBuf s) [] in
+      (if nilb (sendBuf s) then r else noacks r ++ sendBuf s ++ acks_of r,
+       mkSt Connected [] [] (ackctr s))
   | Close => ([], mkSt Disconnected (sendBuf s) (recvBuf s) (ackctr s))
   | Recv label id hs =>
       if is_conn (cs s) then (call_now label id hs 0 false, s)
